@@ -39,4 +39,7 @@ def run(ctx):
         "two or three polls in a row, or again after a healthy poll, the page requests of such a tick reaching the lagging backend too (it has "
         "nothing at or past its own count: no events, nextStart = start, as a full node answers) or the healthy one, events appended meanwhile "
         "or not, the events fetched before already forwarded or still pending; then the count is right again; every log position is owed "
-        "exactly once (page-gap-or-overlap, poll-forwarded-twice, final-message-not-forwarded)")
+        "exactly once (page-gap-or-overlap, poll-forwarded-twice, final-message-not-forwarded)"
+        "; mchg: metadata-change histories (see C08) - after a token contract that was looked up successfully has begun to answer "
+        "differently, the token bridge's attestation of what it reports NOW is owed by the polling path and by re-observation requests "
+        "of the same Watcher / Client (wellformed-event-dropped, final-message-not-forwarded, reobs-wellformed-event-dropped)")
